@@ -225,7 +225,7 @@ def name_scheme(ck, S, RID):
             # the pattern is assembled piecewise (e.g. `if (!suffix.isEmpty()) pattern += ...`): both variants were already
             # recovered by the abstract string evaluation and compared with the writer above
             continue
-        sfx = [v for n in fn.find(lambda n: n.get("k") == "decl") for v in n.get("vars", []) if isinstance(v.get("init"), dict) and is_call(v["init"], ("QFileInfo::suffix", "QFileInfo::completeSuffix"))]
+        sfx = [v for n in fn.find(lambda n: n.get("k") == "decl") for v in n.get("vars", []) if isinstance(v.get("init"), dict) and is_call(deref_local(fn, v["init"]), ("QFileInfo::suffix", "QFileInfo::completeSuffix"))]
         if len(sfx) != 1:
             ck.ob(RID, sitestr(fn), None, "%s: suffix local not found" % nm)
             continue
